@@ -401,8 +401,8 @@ Lemma json_parse_ctc_S : forall fuel' info,
   json_parse_ctc (S fuel') info =
   match jget "type" info with Err e => Err e | Ok tv =>
   match jget "operands" info with Err e => Err e | Ok ov =>
-  match jstr tv with Err e => Err e | Ok ty =>
-  match jlist ov with Err e => Err e | Ok ops =>
+  match jlist ov with Err _ => Err ParsingException | Ok ops =>
+  match jstr tv with Err _ => Err ParsingException | Ok ty =>
     let sub (i : nat) : result node :=
       match nth_operand ops i with Err e => Err e | Ok x => json_parse_ctc fuel' x end in
     let bin2 (o : astop) : result node :=
@@ -463,8 +463,8 @@ Proof.
   rewrite json_parse_ctc_S in H.
   destruct (jget "type" info) as [tv|e]; [|discriminate].
   destruct (jget "operands" info) as [ov|e]; [|discriminate].
-  destruct (jstr tv) as [ty|e]; [|discriminate].
   destruct (jlist ov) as [ops|e]; [|discriminate].
+  destruct (jstr tv) as [ty|e]; [|discriminate].
   cbv zeta in H.
   assert (Hbin : forall o, astop_eqb o NOT = false ->
             match match nth_operand ops 0 with Err e => Err e | Ok x => json_parse_ctc fuel x end with
@@ -1202,8 +1202,8 @@ Proof.
   rewrite json_parse_ctc_S in H. rewrite json_parse_ctc_S.
   destruct (jget "type" info) as [tv|e]; [|discriminate].
   destruct (jget "operands" info) as [ov|e]; [|discriminate].
-  destruct (jstr tv) as [ty|e]; [|discriminate].
   destruct (jlist ov) as [ops|e]; [|discriminate].
+  destruct (jstr tv) as [ty|e]; [|discriminate].
   cbv zeta in H. cbv zeta.
   assert (Hrec : forall x y, json_parse_ctc fuel x = Ok y -> json_parse_ctc fuel' x = Ok y).
   { intros x y Hx. apply (IH fuel' x y Hx). lia. }
@@ -1464,3 +1464,15 @@ Print Assumptions json_read_nonempty.
 Print Assumptions json_read_empty_children.
 Print Assumptions json_roundtrip_needs_nonempty.
 Print Assumptions json_roundtrip_old_false.
+
+(* a FEATURE term whose operand is null, and a term whose "operands" is a string instead of a list, are parsing
+   errors; the same document with the operand "R" is read *)
+Definition ex_ctc_doc (ast : aval) : aval :=
+  VMap [("features", VMap [("name", VStr "R"); ("abstract", VBool false)]);
+        ("constraints", VList [VMap [("name", VStr "c"); ("ast", ast)]])].
+Example json_read_bad_term :
+  json_read (ex_ctc_doc (VMap [("type", VStr jt_FEATURE); ("operands", VList [VNone])])) = Err ParsingException
+  /\ json_read (ex_ctc_doc (VMap [("type", VStr jt_FEATURE); ("operands", VStr "R")])) = Err ParsingException
+  /\ exists pm, json_read (ex_ctc_doc (VMap [("type", VStr jt_FEATURE); ("operands", VList [VStr "R"])])) = Ok pm.
+Proof. split; [vm_compute; reflexivity|]. split; [vm_compute; reflexivity|]. vm_compute. eexists. reflexivity. Qed.
+Print Assumptions json_read_bad_term.
